@@ -1451,6 +1451,43 @@ fn check_layout(case: &LayoutCase, ctx: &mut Ctx) -> Result<(), Fail> {
         ctx.feat("layout.str-view-compared");
     }
 
+    // --- a lone glyph used as a view of its own (it wraps like a str view): same size and cells as
+    //     the `Text` view holding that glyph
+    //     (without glyph support only: with it the glyph view clamps its size, a Text wraps it)
+    if case.wraps && cells.len() == 1 && !case.term.glyphs {
+        if let CellKind::Glyph(glyph) = cells[0].kind() {
+            let ct = BoxConstraint::loose(Size::new(BIG, width));
+            let mut store3 = ViewLayoutStore::new();
+            let layout3 = glyph
+                .layout_new(&vctx, ct, &mut store3)
+                .map_err(|e| Fail::new("layout:layout-error", format!("Glyph::layout failed: {e}")))?;
+            ensure!(
+                layout3.size() == size,
+                "layout:glyph-view-size-differs",
+                "the glyph as a view reports {:?}, the Text view holding it {:?} (max width {width}, glyph support {})",
+                layout3.size(),
+                size,
+                case.term.glyphs
+            );
+            let mut surf3: SurfaceOwned<Cell> = SurfaceOwned::new(size);
+            glyph
+                .render(&vctx, surf3.as_mut(), layout3.view())
+                .map_err(|e| Fail::new("layout:render-error", format!("Glyph::render failed: {e}")))?;
+            for row in 0..size.height {
+                for col in 0..size.width {
+                    let pos = Position::new(row, col);
+                    let (a, b) = (surf.get(pos).map(|c| c.kind()), surf3.get(pos).map(|c| c.kind()));
+                    ensure!(
+                        a == b,
+                        "layout:glyph-view-cells-differ",
+                        "cell ({row},{col}): Text view wrote {a:?}, the glyph as a view wrote {b:?}"
+                    );
+                }
+            }
+            ctx.feat("layout.glyph-view-compared");
+        }
+    }
+
     // --- features
     ctx.feat(&format!("layout.cases.{mode}"));
     ctx.feat_if(tall_overlap, "layout.tall-cell-overlapped-by-next-line(not judged)");
